@@ -1,4 +1,5 @@
 import Hls.Queue.Lemmas
+import Hls.Queue.LemmasInterp
 import Hls.Gen.QueueSkeleton
 /-!
 # C20 — Client download pipeline: FIFO, exactly-once, bounded look-ahead, no lost wake-up
@@ -33,6 +34,27 @@ def genParams (m : Mode) : Params := { variant := .fixed, mode := m, n := Hls.Ge
 
 theorem driver_runs_fixed_program (m : Mode) : paramsOf Hls.Gen.queueSkeleton m = some (genParams m) := by
   cases m <;> decide
+
+/-- The machine the theorems below are about IS the interpretation of the extracted term: on
+    every configuration, the producer's / consumer's step inside push / waitUntilSizeIsBelow /
+    pull equals the generic interpreter `interp` (statement meaning `exec`, control flow
+    computed from the statement list) run on a method table whose statement list is the
+    corresponding field of the REGENERATED `Hls.Gen.queueSkeleton`. (The caller-level steps —
+    download, the ENDLIST branch, process, the final `<-ctx.Done()` — follow the pinned
+    `runTraditional` / `fillSegmentQueue` / `runLowLatency` / processor skeletons by inspection.) -/
+theorem model_interprets_extracted_skeleton (m : Mode) (s : Cfg) :
+    (s.ppc.inPush → pStep (genParams m) s =
+        interp .P (genParams m).n pushMethod (·.ppc) setPpc afterPushRet .done s) ∧
+    (s.ppc.inWait .fixed → pStep (genParams m) s =
+        interp .P (genParams m).n (waitMethod .fixed) (·.ppc) setPpc (fun _ => .download) .done s) ∧
+    (s.cpc.inPull → cStep s = interp .C 0 pullMethod (·.cpc) setCpc (fun _ => .process) .panicked s) ∧
+    pushMethod.stmts = Hls.Gen.queueSkeleton.push ∧
+    (waitMethod .fixed).stmts = Hls.Gen.queueSkeleton.waitBelow ∧
+    pullMethod.stmts = Hls.Gen.queueSkeleton.pull := by
+  have hsk := methods_are_skeleton .fixed 1
+  rw [← skeleton_shape] at hsk
+  exact ⟨pStep_interprets_push _ s, pStep_interprets_wait (genParams m) s, cStep_interprets_pull s,
+    hsk.1, hsk.2.1, hsk.2.2⟩
 
 /-! ## FIFO, exactly once -/
 
@@ -248,5 +270,19 @@ example : ∃ s, Reachable fixedParams s ∧ s.ppc.atRest ∧ s.cpc.atRest ∧ s
 example : ∃ s, Reachable fixedParams s ∧ s.cancelled = true ∧ s.ppc = .done ∧ s.cpc = .done :=
   ⟨_, reachable_of_run .init (ls := List.replicate 6 .p ++ [.pLast] ++ List.replicate 5 .p ++ List.replicate 12 .c ++
       [.cancel, .pCancel, .cCancel]) rfl, by decide⟩
+
+/-- producer at `download` with one segment queued (hypothesis of `c20_download_only_below`) -/
+example : ∃ s, Reachable fixedParams s ∧ s.ppc = .download ∧ segLen s.queue = 1 :=
+  ⟨_, reachable_of_run .init (ls := List.replicate 10 .p) rfl, by decide⟩
+
+/-- `pull` about to return segment 0 (hypothesis of `c20_pull_returns_pushed`) -/
+example : ∃ s, Reachable fixedParams s ∧ s.cCur = some (.seg 0) ∧ s.cpc = .pullUnlockExit :=
+  ⟨_, reachable_of_run .init (ls := List.replicate 6 .p ++ List.replicate 4 .c) rfl, by decide⟩
+
+/-- both threads in their `select` when Close arrives (hypotheses of `c20_cancel`); either may
+    also still take the channel arm -/
+example : ∃ s, Reachable fixedParams s ∧ s.cancelled = true ∧ s.ppc = .waitRecv ∧ s.cpc = .pullRecv ∧
+    enabled fixedParams s = [.p, .pCancel, .cCancel] :=
+  ⟨_, reachable_of_run .init (ls := List.replicate 21 .p ++ List.replicate 16 .c ++ [.cancel]) rfl, by decide⟩
 
 end Hls.Props.C20
